@@ -39,3 +39,54 @@ Section Open.
     destruct (sm2_p8_open pub_of pt_ok kdf cbcdec pass inp) as [[[[? ?] ?] ?]| | |]; congruence.
   Qed.
 End Open.
+
+(* ------------------------------------------------------------------ decode determines the WHOLE target object *)
+Section Whole.
+  Variable pub_of : list N -> list N.
+  Variable pt_ok : list N -> bool.
+
+  Lemma sm2_pub_from_der_point inp xy rest :
+    sm2_pub_from_der pt_ok inp = Ok (xy, rest) -> len xy = 64 /\ pt_ok (4 :: xy) = true.
+  Proof.
+    unfold sm2_pub_from_der. destruct (bit_octets_from_der m 3 inp) as [[d r]| | |]; try discriminate.
+    destruct (N.eqb_spec (len d) 65) as [L|]; cbn [negb]; [|discriminate].
+    destruct d as [|c t]; [rewrite len_nil in L; lia|]. cbn [nth].
+    destruct (N.eqb_spec c 4) as [->|]; cbn [negb]; [|discriminate].
+    destruct (pt_ok (4 :: t)) eqn:P; cbn [negb]; [|discriminate].
+    intros H; injection H as <- <-. change (dropN 1 (4 :: t)) with t. rewrite len_cons in L. split; [lia|exact P].
+  Qed.
+
+  (* a public-key decoder stores the point AND the private scalar 0: the result does not depend on
+     what the caller's SM2_KEY held before *)
+  Theorem sm2_pubkey_from_der_whole inp k rest :
+    sm2_pubkey_from_der pt_ok inp = Ok (k, rest) ->
+    k_priv k = zeros 32 /\ len (k_pub k) = 64 /\ pt_ok (4 :: k_pub k) = true.
+  Proof.
+    unfold sm2_pubkey_from_der. destruct (sm2_pub_from_der pt_ok inp) as [[xy r]| | |] eqn:E; try discriminate.
+    intros H; injection H as <- <-. cbn [k_priv k_pub]. split; [reflexivity|]. exact (sm2_pub_from_der_point _ _ _ E).
+  Qed.
+
+  Theorem sm2_pubkeyinfo_from_der_whole inp k rest :
+    sm2_pubkeyinfo_from_der pt_ok inp = Ok (k, rest) -> k_priv k = zeros 32.
+  Proof.
+    unfold sm2_pubkeyinfo_from_der. destruct (sm2_pubinfo_from_der pt_ok inp) as [[xy r]| | |]; try discriminate.
+    intros H; injection H as <- <-. reflexivity.
+  Qed.
+
+  Theorem sm2_pubkeyinfo_roundtrip xy e rest :
+    length xy = 64%nat -> pt_ok (4 :: xy) = true -> sm2_pubinfo_to_der xy = Ok e ->
+    sm2_pubkeyinfo_from_der pt_ok (e ++ rest) = Ok ({| k_priv := zeros 32; k_pub := xy |}, rest).
+  Proof.
+    intros H1 H2 H3. unfold sm2_pubkeyinfo_from_der. rewrite (sm2_pubinfo_roundtrip pub_of pt_ok xy e rest H1 H2 H3). reflexivity.
+  Qed.
+
+  (* a private-key decoder stores d and [d]G *)
+  Theorem sm2_privkey_from_der_whole inp k rest :
+    sm2_privkey_from_der pub_of pt_ok inp = Ok (k, rest) ->
+    len (k_priv k) = 32 /\ d_ok (k_priv k) = true /\ k_pub k = pub_of (k_priv k) /\ len (k_pub k) = 64.
+  Proof.
+    unfold sm2_privkey_from_der. destruct (sm2_priv_from_der pub_of pt_ok inp) as [[[d pub] r]| | |] eqn:E; try discriminate.
+    intros H; injection H as <- <-. cbn [k_priv k_pub].
+    destruct (sm2_priv_from_der_sound pub_of pt_ok _ _ _ _ E) as (A & B & C & _ & D). auto.
+  Qed.
+End Whole.
